@@ -179,7 +179,7 @@ NDARRAY = ATypeRef('ndarray')
 NOT_GIVEN = object()
 
 _BUILTINS = {'len', 'type', 'issubclass', 'isinstance', 'print', 'bool', 'int', 'float', 'abs', 'min', 'max',
-             'range', 'hasattr', 'getattr', 'super', 'vars', 'str', 'tuple', 'list', 'sum', 'Exception',
+             'range', 'hasattr', 'getattr', 'super', 'vars', 'str', 'tuple', 'list', 'sum', 'enumerate', 'zip', 'Exception',
              'TypeError', 'ValueError', 'AttributeError', 'NotImplementedError', 'IndexError'}
 _EXC_NAMES = {'Exception', 'TypeError', 'ValueError', 'AttributeError', 'NotImplementedError', 'IndexError',
               'KeyError', 'ZeroDivisionError', 'RuntimeError'}
@@ -370,6 +370,8 @@ class Interp:
             fr.vars[st.name].closure = fr
         elif t is ast.Assert:
             return
+        elif t is ast.Try:
+            self.exec_try(fr, st)
         elif t is ast.With:
             for item in st.items:
                 ce = item.context_expr
@@ -378,6 +380,78 @@ class Interp:
             self.exec_block(fr, st.body)
         else:
             raise AnalysisError(f"unsupported statement {t.__name__} at {fr.module}.py:{st.lineno}")
+
+    def exec_try(self, fr, st):
+        """try/except over abstract raises: a handler matches by the exception class name (bare `except`, `except
+        Exception` and tuples included); `else` / `finally` as in Python"""
+        try:
+            self.exec_block(fr, st.body)
+        except AbstractRaise as e:
+            for h in st.handlers:
+                names = []
+                if h.type is None:
+                    names = None
+                elif isinstance(h.type, ast.Tuple):
+                    names = [x.id for x in h.type.elts if isinstance(x, ast.Name)]
+                elif isinstance(h.type, ast.Name):
+                    names = [h.type.id]
+                else:
+                    raise AnalysisError(f"unsupported except clause at {fr.module}.py:{h.lineno}")
+                if names is None or e.exc in names or 'Exception' in names or 'BaseException' in names:
+                    if h.name:
+                        fr.vars[h.name] = AStr(f"<{e.exc}>")
+                    try:
+                        self.exec_block(fr, h.body)
+                    finally:
+                        self.exec_block(fr, st.finalbody)
+                    return
+            self.exec_block(fr, st.finalbody)
+            raise
+        except _Return:
+            self.exec_block(fr, st.finalbody)
+            raise
+        self.exec_block(fr, st.orelse)
+        self.exec_block(fr, st.finalbody)
+
+    def _comp_items(self, fr, e):
+        """values of a list comprehension / generator expression over concrete iterables (single or nested `for`, `if`
+        filters with decidable conditions); the loop variables live in the enclosing frame, as the repo never relies on
+        comprehension scoping"""
+        out = []
+
+        def rec(k):
+            if k == len(e.generators):
+                out.append(self.eval(fr, e.elt))
+                return
+            g = e.generators[k]
+            it = self.eval(fr, g.iter)
+            if is_arraylike(it):
+                a = snap(it)
+                if a.ndim != 1 or not a.shape[0].is_const():
+                    raise AnalysisError("comprehension over an array of symbolic length")
+                it = [a.at((Rat.const(i),)) for i in range(a.shape[0].as_int())]
+            if isinstance(it, dict):
+                it = list(it)
+            if not isinstance(it, (tuple, list)):
+                raise AnalysisError(f"comprehension over {type(it).__name__}")
+            for v in it:
+                self.assign(fr, g.target, v, e.lineno)
+                ok = True
+                for cond in g.ifs:
+                    c = self.truth(self.eval(fr, cond))
+                    if not isinstance(c, bool):
+                        raise AnalysisError("comprehension filter on a symbolic value")
+                    ok = ok and c
+                if ok:
+                    rec(k + 1)
+        rec(0)
+        return out
+
+    def ev_ListComp(self, fr, e):
+        return self._comp_items(fr, e)
+
+    def ev_GeneratorExp(self, fr, e):
+        return tuple(self._comp_items(fr, e))
 
     def do_raise(self, fr, st):
         exc = st.exc
